@@ -447,6 +447,28 @@ def _(cx, r):
         return Call('transform.compute_state_difference[Series]',
                     transform.compute_state_difference,
                     [Arg(cx.pva(r), 'pva'), Arg(cx.pva(r), 'pva')])
+    if r.random() < 0.5:
+        # the same sampling, but the second table's stamps went through a text log
+        # (nominally equal, not bitwise equal)
+        b = a.copy()
+        idx = np.asarray(a.index, dtype=float)
+        b.index = pd.Index(idx * (1.0 + 3e-16 * r.integers(-2, 3, len(idx))) +
+                           1e-13 * r.integers(-3, 4, len(idx)), name=a.index.name)
+        first_idx = np.asarray(a.index, dtype=float)
+
+        def no_holes(res, first_idx=first_idx):
+            if not isinstance(res, pd.DataFrame):
+                return f"difference is {type(res).__name__}"
+            if not np.isfinite(res.to_numpy(dtype=float)).all():
+                return "difference of two complete tables contains NaN"
+            got = np.asarray(res.index, dtype=float)
+            if len(got) > len(first_idx):
+                return (f"difference of two {len(first_idx)}-row tables on the same sampling "
+                        f"has {len(got)} rows")
+            return None
+        return Call('transform.compute_state_difference[jittered stamps]',
+                    transform.compute_state_difference,
+                    [Arg(a, 'plain'), Arg(b, 'plain')], schema=(no_holes,))
     cols = VEL_COLS + RPH_COLS
     return Call('transform.compute_state_difference[subset]',
                 transform.compute_state_difference,
@@ -836,9 +858,13 @@ def _(cx, r):
 
 @template('inertial_sensor.EstimationModel.reset_estimates')
 def _(cx, r):
+    def all_zero(est):
+        v = np.asarray(est, dtype=float)
+        return None if (v == 0).all() else \
+            f"estimates after reset_estimates are not zero: {dict(est[est != 0])}"
     return Call('inertial_sensor.EstimationModel.reset_estimates',
                 lambda s: (s.reset_estimates(), s.get_estimates())[1],
-                [Arg(_est_model(cx, r), 'self')])
+                [Arg(_est_model(cx, r), 'self')], schema=(all_zero,))
 
 
 @template('inertial_sensor.EstimationModel.get_estimates')
